@@ -54,9 +54,9 @@ WATCHDOG = {"quick": 600, "thorough": 3000}
 
 def plan(tier):
     if tier == "thorough":
-        return [{"variant": "plain", "workers": 10, "cases": 12000, "name": "plain"},
-                {"variant": "asan", "workers": 3, "cases": 1500, "name": "asan"},
-                {"variant": "guard", "workers": 3, "cases": 2200, "name": "guard"}]
+        return [{"variant": "plain", "workers": 10, "cases": 16000, "name": "plain"},
+                {"variant": "asan", "workers": 3, "cases": 2000, "name": "asan"},
+                {"variant": "guard", "workers": 3, "cases": 3000, "name": "guard"}]
     return [{"variant": "plain", "workers": 5, "cases": 800, "name": "plain"},
             {"variant": "asan", "workers": 1, "cases": 150, "name": "asan"},
             {"variant": "guard", "workers": 1, "cases": 300, "name": "guard"}]
